@@ -87,11 +87,18 @@ def gen_class(rnd, i):
     for n in names:
         fields.append({"name": n, "default": rnd.random() < 0.5, "alias": (n.upper() + "x" if rnd.random() < 0.25 else n)})
     fields.sort(key=lambda f: f["default"])
-    lines = ["@dataclass", f"class V{i}:"]
+    inherit = rnd.random() < 0.3          # fields and helpers in a base class, validators in the subclass
+    cname = f"VB{i}" if inherit else f"V{i}"
+    lines = ["@dataclass", f"class {cname}:"]
     for f in fields:
         md = f"metadata=alias({f['alias']!r})" if f["alias"] != f["name"] else ""
         rhs = (f" = field(default=0, {md})" if md else " = 0") if f["default"] else (f" = field({md})" if md else "")
         lines.append(f"    {f['name']}: int{rhs}")
+    if inherit:
+        # helpers defined in the base class: a method and a property, each reading one field
+        for n in names:
+            lines += [f"    def get_{n}(self):", f"        return self.{n}", "    @property", f"    def prop_{n}(self):", f"        return self.{n}"]
+        lines += ["", "@dataclass", f"class V{i}({cname}):"]
     vals = []
     for j in range(rnd.randint(1, 4)):
         deps = sorted(rnd.sample(names, rnd.randint(1, min(2, len(names)))))
@@ -101,7 +108,10 @@ def gen_class(rnd, i):
         disc = sorted(rnd.sample(names, rnd.randint(1, min(2, len(names))))) if kind == "discard" else None
         deco = "@validator" if kind == "plain" else f"@validator({tgt!r})" if kind == "field" else \
             "@validator(discard=[" + ", ".join(map(repr, disc)) + "])"
-        cond = " or ".join(f"self.{d} == 13" for d in deps)
+        def read(d):
+            if not inherit: return f"self.{d}"
+            return rnd.choice([f"self.{d}", f"self.get_{d}()", f"self.prop_{d}"])
+        cond = " or ".join(f"{read(d)} == 13" for d in deps)
         body = [f"        LOG.append(({i}, {j}))", f"        if {cond}:"]
         body.append(f"            raise ValidationError(['v{j}'])" if style == "raise" else f"            yield 'v{j}'")
         lines += [f"    {deco}", f"    def check{j}(self):"] + body
